@@ -46,14 +46,34 @@ RULE_RC = ("executions = random API programs (2-4 threads, <=40 ops each, 2-3 ro
            "with injected delays (mode P); distinct = distinct hash of the sequence of (thread, site, next thread) context "
            "switches and op boundaries (mode S) / of the op logs (mode P); non-trivial = ")
 
+def scen_job(which, prop):
+    return dict(name=f"scen-{which}", variant="debug", stage=0,
+                args=["scen", "--which", which, "--prop", prop, "--nshards", "4", "--tier", "{tier}"],
+                shards=dict(quick=4, thorough=4))
+
+
+def seq_job(check, variant="debug", tiers=("quick", "thorough"), name=None):
+    return dict(name=name or f"seq-{check}-{variant}", variant=variant, stage=0, tiers=list(tiers),
+                args=["seq", "--check", check, "--tier", "{tier}"], shards=dict(quick=1, thorough=1))
+
+
+def proc_job(check, variant, nshards=8):
+    return dict(name=f"{check}-{variant}", variant=variant, stage=0,
+                args=[check, "--tier", "{tier}", "--nshards", str(nshards)], shards=dict(quick=nshards, thorough=nshards),
+                watchdog_factor=20)
+
+
+SEQ_ASSUME = ["single driver thread: epoch advances are produced only by the check itself, so counts are deterministic",
+              "hooks (cargo feature circ_verif) do not change the behaviour of the library"]
+
 CHECKS = {
     "C01": dict(
-        jobs=rc_jobs("c01", "C01", "shared_destruct,inc_from_zero", focused="c01f"),
+        jobs=rc_jobs("c01", "C01", "shared_destruct,inc_from_zero", focused="c01f", extra=[scen_job("c01", "C01")]),
         rule=RULE_RC + "the execution contained a destruct attempt on an object that >=2 threads touched, or an increment from a zero count",
         accept=["C01"], assumptions=RC_ASSUME, floor=dict(quick=50, thorough=500),
     ),
     "C02": dict(
-        jobs=rc_jobs("c02", "C02", "snap_destruct", focused="c02f"),
+        jobs=rc_jobs("c02", "C02", "snap_destruct", focused="c02f", extra=[scen_job("c02", "C02")]),
         rule=RULE_RC + "the execution contained a destruct attempt (root or cascade) on an object for which a Snapshot record existed",
         accept=["C02"], assumptions=RC_ASSUME, floor=dict(quick=50, thorough=500),
     ),
@@ -81,5 +101,54 @@ CHECKS = {
         jobs=rc_jobs("c09", "C09", "overlap_mutators,wcas_epoch_differs"),
         rule=RULE_RC + "an AtomicWeak history with >=2 overlapping mutators, or a CAS whose expected value carried another epoch stamp than the stored word",
         accept=["C09"], accept_sig=[r"^C04\|audit-weak-mismatch"], assumptions=RC_ASSUME, floor=dict(quick=50, thorough=500),
+    ),
+    "C06": dict(
+        jobs=[seq_job("c06", "release"), seq_job("c06", "debug", tiers=("thorough",))],
+        rule="inputs = (shape, n, link age, epoch residue mod 16, position of an externally held node): chains n=1..50 000 (thorough: 1 000 000), "
+             "binary trees up to depth 17, all 16 residues for n<=5000; for each the number of global-epoch advances between dropping the head and "
+             "the last destructor is compared with 12*(1+ceil(n/1024)); distinct = distinct inputs; every input is non-trivial (it runs a real cascade)",
+        accept=["C06"], assumptions=SEQ_ASSUME + ["the bound 12*(1+ceil(n/1024)) is my reading of 'a small constant plus n/1024' in units of grace periods (a grace period was measured at 3-15 advances)"],
+        floor=dict(quick=100, thorough=300),
+    ),
+    "C07": dict(
+        jobs=[proc_job("c07", "release"), proc_job("c07", "debug")],
+        rule="inputs = (build, shape in chain/tree/comb/dag, n up to 1 000 000 (thorough 4 000 000), thread stack size); each runs in a child process that "
+             "builds the structure, drops it on a thread with that stack, drives collection rounds and reports drops==n; death by signal = overflow; "
+             "distinct = distinct inputs, all non-trivial",
+        accept=["C07"], assumptions=["stack sizes that must survive: release 256 KiB-8 MiB, debug (opt-level 1) 1-8 MiB; smaller sizes are probed for the open finding"],
+        floor=dict(quick=20, thorough=40),
+    ),
+    "C10": dict(
+        jobs=[seq_job("c10", "debug"), seq_job("c10", "release")] + rc_jobs("c04", "C10", "any_destruct", s_secs=(8, 60), p_secs=(4, 30), asan=False)[:1],
+        rule="sequential: every N in {0,1,2,3,8,64} for new_many/weak_many, counts {0..5,64,1000} x every consumed prefix x drop/abort for new_many_iter, "
+             "seeded release orders through drop/finalize/cell; after every step strong == owners left and the destructor count is 0 until the last owner "
+             "is gone and 1 after bounded rounds; plus the bulk ops inside the concurrent RC programs (ledger kind bulk); distinct = distinct (ctor, N, prefix, release) inputs / schedules",
+        accept=["C10"], assumptions=SEQ_ASSUME, floor=dict(quick=50, thorough=100),
+    ),
+    "C11": dict(
+        jobs=[seq_job("c11", "debug"), seq_job("c11", "release", tiers=("thorough",))],
+        rule="(i) shimmed Tagged ops on synthetic words: alignments 1..64 x addresses {0, align, 2^47-a, 2^56-a, 2^60-a, random} x tags 0..2*align x all 16 timestamps "
+             "against a reference bit model; (ii) public API on real objects with payload alignments 1..64: every tag, stored at 16 epoch residues and loaded back, "
+             "tagged/timestamped null; distinct = distinct (alignment, address, tag, timestamp) inputs, all non-trivial",
+        accept=["C11"], assumptions=SEQ_ASSUME, floor=dict(quick=1000, thorough=1000),
+    ),
+    "C12": dict(
+        jobs=[seq_job("c12", "debug"), seq_job("c12", "release", tiers=("thorough",))],
+        rule="(i) every count-word updater on boundary and random field values; (ii) the modular decision for current epochs 3..80 and around 2^16, 2^32, 2^40 x true ages -1..64; "
+             "(iii) end-to-end parent->child cascade-vs-defer decisions at all 16 residues x link ages x child stamp ages, observed at the destructor boundary; distinct = distinct inputs",
+        accept=["C12"], assumptions=SEQ_ASSUME, floor=dict(quick=1000, thorough=1000),
+    ),
+    "C19": dict(
+        jobs=[seq_job("c19", "debug")],
+        rule="all pairs and triples over a pool of 14 pointers (null, tagged nulls, A, A with tags, A loaded at 3 epochs, B equal to A, C, D) for Rc and Snapshot: "
+             "==, partial_cmp, cmp, two hashers vs Option<&T>; Eq/Ord/Hash laws; ptr_eq = identity+tag; distinct = distinct ordered pairs", exhaustive=True,
+        accept=["C19"], assumptions=SEQ_ASSUME, floor=dict(quick=100, thorough=100),
+    ),
+    "C20": dict(
+        jobs=[proc_job("c20", "debug"), proc_job("c20", "release")],
+        rule="inputs = (build, API call made from a thread-local destructor (12 kinds), TLS order relative to circ's handle (before/after/no other use/both), threads, main-thread exit); "
+             "each runs in a child process; oracle: exit 0, no panic, every TLS destructor ran, all objects destructed after <=400 rounds on the surviving thread; distinct = distinct inputs",
+        accept=["C20"], assumptions=["a wall-clock timeout of a child is recorded as inconclusive, never as a violation"],
+        floor=dict(quick=100, thorough=100),
     ),
 }
